@@ -192,11 +192,13 @@ LinStep(c, t) ==
   ELSE [br   |-> [c.br EXCEPT ![p.id] = Acq(@, "r")],
         pend |-> [c.pend EXCEPT ![t] = [@ EXCEPT !.lin = TRUE, !.k = "guard"]]]
 
-RECURSIVE Close(_)
-Close(CS) ==
-  LET N == CS \cup {LinStep(c, t) : <<c, t>> \in {<<c, t>> \in CS \X UNION {DOMAIN c.pend : c \in CS} :
-                                                  t \in DOMAIN c.pend /\ ~c.pend[t].lin}}
-  IN IF N = CS THEN CS ELSE Close(N)
+\* closure under silent Lin steps, frontier by frontier (TLCEval: evaluate each set once)
+RECURSIVE CloseF(_, _)
+CloseF(front, acc) ==
+  IF front = {} THEN acc
+  ELSE LET nxt == TLCEval(UNION {{LinStep(c, t) : t \in {u \in DOMAIN c.pend : ~c.pend[u].lin}} : c \in front} \ acc)
+       IN CloseF(nxt, TLCEval(acc \cup nxt))
+Close(CS) == CloseF(CS, CS)
 
 TrTRet ==
   /\ Is("tret")
